@@ -8,20 +8,98 @@ import (
 	"errors"
 	"testing"
 
+	"github.com/alicebob/miniredis/v2"
 	red "github.com/go-redis/redis/v8"
 	"github.com/gotid/god/internal/verifdrv"
+	"github.com/gotid/god/lib/breaker"
+	"github.com/gotid/god/lib/logx"
 )
+
+// verifC01Site: 200 calls of one Redis method against a fresh miniredis (fresh breaker, named by the address, as
+// New builds it), each producing the error class: 0 none | 3 context.Canceled (the caller's context is cancelled) |
+// 4 redis.Nil (missing key / member) | 5 another error (WRONGTYPE / not an integer).  site 0 HGetCtx | 1 LPopCtx |
+// 2 ZScoreCtx | 3 RPopCtx | 4 GetCtx | 5 IncrCtx | 6 ZRankCtx.  "ok" iff no call was cut off by the breaker;
+// "sentinel": how many calls returned exactly context.Canceled / redis.Nil (classes 3 / 4).
+func verifC01Site(site, class int64) any {
+	mr, err := miniredis.Run()
+	if err != nil {
+		return map[string]any{"error": err.Error()}
+	}
+	defer mr.Close()
+	mr.Set("s", "abc")
+	mr.Set("n", "1")
+	mr.HSet("h", "f", "v")
+	for i := 0; i < 300; i++ {
+		mr.Lpush("l", "x")
+	}
+	mr.ZAdd("z", 1, "m")
+	r := New(mr.Addr())
+	ctx := context.Background()
+	if class == 3 {
+		c, cancel := context.WithCancel(ctx)
+		cancel()
+		ctx = c
+	}
+	key := map[int64]string{0: "h", 1: "l", 2: "z", 3: "l", 4: "s", 5: "n", 6: "z"}[site]
+	member := "m"
+	switch class {
+	case 4:
+		key, member = "missing", "missing"
+		if site == 2 || site == 6 {
+			key = "z"
+		}
+	case 5:
+		key = "s"
+		if site == 4 {
+			key = "h"
+		}
+	}
+	dropped, sentinel, failed := 0, 0, 0
+	for i := 0; i < 200; i++ {
+		var err error
+		switch site {
+		case 0:
+			_, err = r.HGetCtx(ctx, key, "f")
+		case 1:
+			_, err = r.LPopCtx(ctx, key)
+		case 2:
+			_, err = r.ZScoreCtx(ctx, key, member)
+		case 3:
+			_, err = r.RPopCtx(ctx, key)
+		case 4:
+			_, err = r.GetCtx(ctx, key)
+		case 5:
+			_, err = r.IncrCtx(ctx, key)
+		default:
+			_, err = r.ZRankCtx(ctx, key, member)
+		}
+		switch {
+		case err == breaker.ErrServiceUnavailable:
+			dropped++
+		case err == context.Canceled || err == red.Nil:
+			sentinel++
+		case err != nil:
+			failed++
+		}
+	}
+	return map[string]any{"ok": dropped == 0, "dropped": dropped, "sentinel": sentinel, "failed": failed}
+}
 
 // TestVerifDriverC01: {"arg": e} -> acceptable(err) with e: 0 nil, 3 context.Canceled, 4 redis.Nil,
 // otherwise another error.
 func TestVerifDriverC01(t *testing.T) {
+	logx.Disable()
 	other := errors.New("verif other")
 	verifdrv.Run(t, func(raw json.RawMessage) any {
 		var c struct {
-			Arg int64 `json:"arg"`
+			Arg  int64  `json:"arg"`
+			Site *int64 `json:"site"`
 		}
 		if err := json.Unmarshal(raw, &c); err != nil {
 			return map[string]any{"error": err.Error()}
+		}
+		if c.Site != nil {
+			return verifC01Site(*c.Site, c.Arg)
 		}
 		var err error
 		switch c.Arg {
